@@ -30,15 +30,15 @@ claim("C06", "model_checking",
       TRUST + "; other interleavings are covered by a Kahn-network argument that is stated, not checked", "DESIGN.md section 4 C06")
 claim("C07", "model_checking",
       "Resampler.__init__/_calculate_window_end executed with symbolic now, align_to and period (non-linear integer arithmetic): alignment, range and the hand-set timer start are proved; "
-      "the real resample() tick loop is run with a stand-in timer yielding arbitrary symbolic drifts, series added while running and a failing sink.", TRUST + "; the real frequenz.channels Timer is replaced by a stand-in with the TriggerAllMissed contract",
+      "the real resample() tick loop is run with a stand-in timer yielding arbitrary symbolic drifts, series added while running (between ticks and while the tick's gather is pending), a failing sink, a sink blocking for several periods; align_to also as concrete aware datetimes in non-UTC zones.", TRUST + "; the real frequenz.channels Timer is replaced by a stand-in with the TriggerAllMissed contract",
       "DESIGN.md section 4 C07")
 claim("C08", "model_checking",
       "The real _ResamplingHelper/_StreamingHelper are run with symbolic sample timestamps, validity kinds and tick time; a recording resampling function shows exactly which samples were "
-      "used; z3 proves the half-open relevance interval at both edges, the buffer limit, the None/NaN filter and None-ness of the output; burst and period-estimation instances included.",
+      "used; z3 proves the half-open relevance interval at both edges, the buffer limit, the None/NaN filter and None-ness of the output; burst and period-estimation instances included; concrete present-day timelines with periods not representable in binary run the code's float arithmetic in IEEE (bounded enumeration of edge +-1 us cases, labelled ieee-*).",
       TRUST, "DESIGN.md section 4 C08")
 claim("C09", "model_checking",
       "The real OrderedRingBuffer (list container) is executed on symbolic update timestamps (microsecond resolution, any order) and symbolic datetime / index queries and compared with an "
-      "executable reference map slot -> value after every update: acceptance, count_valid, gaps, oldest/newest, count_covered, every element of every window and MovingWindow.at/[]; deeper histories (capacity 4, 4 updates) with update timestamps enumerated on the slot grid.", TRUST, "DESIGN.md section 4 C09")
+      "executable reference map slot -> value after every update: acceptance, count_valid, gaps, oldest/newest, count_covered, every element of every window and MovingWindow.at/[]; deeper histories (capacity 4, 4 updates) with update timestamps enumerated on the slot grid; sampling periods 1 s, 200 ms, 300 ms, 70 ms, where the slot-grid / half-slot-grid instances run the code's float-second arithmetic in IEEE on concrete datetimes.", TRUST, "DESIGN.md section 4 C09")
 claim("C10", "model_checking",
       "Actor._run_loop is driven by hand at every suspension point with a symbolic action and a symbolic restart limit (z3 arithmetic decides restart/no restart); BackgroundService.stop/wait/cancel "
       "and run() are executed with real tasks on a virtual-time loop over symbolic task behaviours and operations. The solver's role is mostly the case split (stated).", TRUST, "DESIGN.md section 4 C10")
@@ -46,7 +46,7 @@ claim("C11", "model_checking",
       "The real PowerManagingActor handlers (_send_updated_target_power, _send_reports, bounds update, PartialFailure resend, expiry) are applied for every event sequence of bounded length with "
       "all powers and bounds symbolic, both by calling the handlers and by feeding the real _run select loop / _bounds_tracker task over real channels (late PartialFailure, expiry by the real timer); after every request z3 proves request = regular target + operating-point target as reported and request inside the latest bounds.", TRUST, "DESIGN.md section 4 C11")
 claim("C12", "translation_validation", TV + ". All 2609 topologies with <=7 components from a grammar (quick; <=8 thorough) x 3 evaluation modes (no fallback, fallback configured with valid primaries, primaries replaced by "
-      "their generated fallback formulas); 8 identities per topology over symbolic device powers and unmetered loads.", TRUST, "DESIGN.md section 4 C12")
+      "their generated fallback formulas); 8 identities per topology over symbolic device powers and unmetered loads; additionally on graph objects that held another topology before (all formulas generated, all predicates queried) and were refreshed with refresh_from().", TRUST, "DESIGN.md section 4 C12")
 claim("C13", "translation_validation", TV + ". Per input the kind (finite, None, NaN, +inf, -inf) and the nones_are_zeros flags are symbolic choices, so every combination is explored for every program with <=2 operands "
       "(<=3 thorough); a round without output sample is a violation.", TRUST, "DESIGN.md section 4 C13")
 claim("C14", "model_checking",
@@ -55,7 +55,7 @@ claim("C14", "model_checking",
       TRUST, "DESIGN.md section 4 C14")
 claim("C15", "model_checking",
       "BatteryManager._distribute_power/_set_distributed_power/_parse_result and PVManager.distribute_power/_set_api_power run on a virtual-time loop with symbolic set-points/bounds/request and a symbolic "
-      "6-way outcome per set_power call (incl. slow success and timeout); z3 proves succeeded + failed + excess = request, failed_power = sum of failed set-points, component sets, and calls = distribution.", TRUST, "DESIGN.md section 4 C15")
+      "6-way outcome per set_power call (incl. slow success and timeout); z3 proves succeeded + failed + excess = request, failed_power = sum of failed set-points, component sets, and calls = distribution; two concurrent PV requests for disjoint inverter sets on one manager.", TRUST, "DESIGN.md section 4 C15")
 claim("C16", "model_checking",
       "The real BatteryStatusTracker._run dispatch loop and BlockingStatus are driven through a stand-in select/Timer with a symbolic clock: for every sequence of <=4 events (messages with symbolic age and fault, "
       "timers, set-power results) the sent status equals a reference (never usable while a disqualifying fact holds; exponential blocking; notify on change only); ComponentPoolStatusTracker._update_status over every sequence of 4 notifications.", TRUST + "; stand-in timer contract stated in evidence", "DESIGN.md section 4 C16")
@@ -67,4 +67,4 @@ claim("C18", "model_checking",
       "monotonicity and scale invariance are proved over non-linear real arithmetic; plus the fetcher's NaN dropping and SendOnUpdate's cache eviction.", TRUST, "DESIGN.md section 4 C18")
 claim("C19", "model_checking",
       "The real MetricFetcher inside a real formula on a virtual-time loop, with a fake FallbackMetricFetcher subclass: validity of every primary/fallback sample, per-round delivery order and the point at which "
-      "the primary stream is closed are symbolic; every output is compared with the documented switching rule; a formula with a second plain term exposes misalignment; delivery lock-step, fallback 1-2 rounds early, in pairs, or as an initial burst; also with the real FallbackFormulaMetricFetcher over a real fallback engine.", TRUST, "DESIGN.md section 4 C19")
+      "the primary stream is closed are symbolic; every output is compared with the documented switching rule; a formula with a second plain term exposes misalignment; delivery lock-step, fallback 1-2 rounds early, in pairs, or as an initial burst; also with the real FallbackFormulaMetricFetcher over a real fallback engine, and end to end through the real formula generators (grid, grid reactive, PV, battery, producer power with allow_fallback) on a real component graph with the harness as resampling actor serving different symbolic values per (component, metric).", TRUST, "DESIGN.md section 4 C19")
